@@ -470,6 +470,29 @@ func c19(r *ev.Result, tier string) {
 		}
 		mu.Unlock()
 	})
+	/* Beyond the enumeration's length: a flood that goes on for 23 s with
+	gaps just below the pause interval (nothing may come through, however
+	long it lasts), then calm. */
+	for _, long := range []string{"O" + strings.Repeat("bP", 12) + "cP", "O" + strings.Repeat("aP", 30) + "bPcPS"} {
+		out, err := runCttyWorker("c19w", fmt.Sprint(len(long)), long, base)
+		var res struct {
+			Execs int       `json:"execs"`
+			Steps int       `json:"steps"`
+			Viols []c19Viol `json:"viols"`
+			Err   string    `json:"err"`
+		}
+		if jerr := json.Unmarshal(out, &res); nil != jerr || nil != err || "" != res.Err {
+			ev.Broken("c19 worker for the long flood %s: %v %v %s %q", long, err, jerr, res.Err, trunc80(string(out)))
+		}
+		r.Evaluations += res.Execs
+		r.Traces += res.Execs
+		r.Transitions += res.Steps
+		for _, v := range res.Viols {
+			if b, ok := best[v.Sig]; !ok || len(v.Events) < len(b.Events) {
+				best[v.Sig] = v
+			}
+		}
+	}
 	for _, v := range best {
 		r.Violate(ev.Violation{Signature: v.Sig, What: v.What, Kind: "c19", Replay: map[string]string{"events": v.Events}})
 	}
